@@ -36,12 +36,23 @@ def oracle(p, o):
     def at(tid, node):
         return [r for r in o["results"] if r["test_id"] == tid and node.lineno <= r["lineno"] <= getattr(node, "end_lineno", node.lineno)]
 
-    imported = set()
+    # a module counts as imported for a call only if its import statement precedes the call in the file (a name used before
+    # its import is not the module; the statement speaks about calls that denote the flagged function)
+    import_line = {}
     for n in ast.walk(tree):
         if isinstance(n, ast.Import):
-            imported |= {a.name for a in n.names}
+            for a in n.names:
+                import_line[a.name] = min(import_line.get(a.name, n.lineno), n.lineno)
         elif isinstance(n, ast.ImportFrom) and n.module:
-            imported |= {n.module + "." + a.name for a in n.names}
+            for a in n.names:
+                import_line[n.module + "." + a.name] = min(import_line.get(n.module + "." + a.name, n.lineno), n.lineno)
+
+    class _Imported:
+        def __init__(self):
+            self.line = 10 ** 9
+        def __contains__(self, name):
+            return name in import_line and import_line[name] < self.line
+    imported = _Imported()
     allcalls = [n for n in ast.walk(tree) if isinstance(n, ast.Call)]
 
     def lonely(c):
@@ -65,6 +76,7 @@ def oracle(p, o):
     for c, q, bound in resolve.calls_with_names(tree):
         if not plain(c) or q is None or not lonely(c):
             continue
+        imported.line = c.lineno
         if q == "exec" and on("B102") and not at("B102", c):
             bad("exec() on line %d is not reported as B102" % c.lineno)
         if q == "yaml.load" and "yaml" in imported and on("B506"):
